@@ -483,6 +483,35 @@ func runC18(c *Ctx) error {
 			}
 		}
 	}
+
+	// ---------- states of one to several megabytes (the storage keeps at least 10,000 routers) ----------
+	for _, n := range []int{1800, 6000} {
+		if n > 1800 && !c.Thorough() {
+			break
+		}
+		dir := filepath.Join(base, fmt.Sprintf("big%d", n))
+		_ = os.MkdirAll(dir, 0o700)
+		target := filepath.Join(dir, "state.json")
+		st := c18GenState(c, n, ids)
+		data, _, err := serialise(st, dir)
+		if err != nil {
+			return err
+		}
+		if err := os.WriteFile(target, data, 0o600); err != nil {
+			return err
+		}
+		c.Eval()
+		c.Count(fmt.Sprintf("large-state:%dMiB", len(data)>>20))
+		c.NonTrivial(fmt.Sprintf("large-state/%d", n))
+		ld, err := storage.NewJSONFileStorage(target)
+		if err != nil {
+			c.Violate(fmt.Sprintf("the router refuses to start with a state of %d routers (%d bytes) that it wrote itself: %v", n, len(data), err), "refuses-to-start-large", map[string]any{"routers": n, "bytes": len(data)})
+			continue
+		}
+		if canonJSON(ld.VerifContent()) != canonJSON(st) {
+			c.Violate(fmt.Sprintf("a state of %d routers (%d bytes) is not preserved by save and reload", n, len(data)), "roundtrip-large", map[string]any{"routers": n, "bytes": len(data)})
+		}
+	}
 	return nil
 }
 
